@@ -134,6 +134,12 @@ def run_cases(cases, tag="sem", per_program=120):
         res = e2e.parse_case_lines(o.get("stdout", ""))
         for i, c in enumerate(cases[k * per_program:(k + 1) * per_program]):
             c["real"] = res.get(str(k * per_program + i))
+    model_for(cases)
+    return cases
+
+
+def model_for(cases):
+    """fills c["model"] (specification frontier, execution of the model's expansion, trace) for every case"""
     # model side: the real parser's tree for the same invocation text
     inv = ["v, " + c["pattern"] for c in cases]
     mac = maclib.run_mac(inv, mode="parse")
